@@ -463,6 +463,16 @@ func (c *foCase) keys(rng *rand.Rand) [][]byte {
 	for i := range ks {
 		ks[i] = []byte(fmt.Sprintf("key-%c", 'A'+i))
 	}
+	if c.NKeys >= 2 && rng.Intn(5) == 0 {
+		// a long key and the key that is its own prefix (64, 128 or 256 bytes): distinct keys
+		long := make([]byte, []int{80, 129, 300}[rng.Intn(3)])
+		rng.Read(long)
+		ks[0] = long
+		ks[1] = append([]byte(nil), long[:[]int{64, 128, 256}[rng.Intn(3)]%len(long)]...)
+		if len(ks[1]) == 0 {
+			ks[1] = long[:64]
+		}
+	}
 	return ks
 }
 
